@@ -29,8 +29,14 @@ SUBNAMES = {0: "plain", 1: "boolean", 2: "integer", 3: "float", 4: "interval", 5
 
 def gen_value(rnd, ty, depth):
     if ty == STR:
+        if rnd.random() < 0.04:     # long values: around the sizes at which buffers and vectors grow
+            n = rnd.choice([255, 256, 257, 1023, 1024, 1025, 4095, 4096, 4097, 10000])
+            return "".join(rnd.choice("abcdefghij klmnop.;,(){}") for _ in range(n))
         return rnd.choice(["1", "2", "x", "y", "5m", "true", "X", "hello world", "q\"uote", "back\\slash", "caf\xe9", "", "a;b", "line\nbreak", "#tok.en-_"])
     if ty == LIST:
+        if rnd.random() < 0.06:     # long lists: counts at and across powers of two
+            n = rnd.choice([4, 7, 8, 9, 15, 16, 17, 31, 32, 33, 64, 65])
+            return [rnd.choice(["p", "q", "i%d" % k, "i%d" % k, "two words"]) for k in range(n)]
         return [rnd.choice(["p", "q", "r", "P", "two words", ""]) for _ in range(rnd.choice([0, 0, 1, 2, 3]))]
     if ty == INADDR:
         return [rnd.choice(["h1", "h2", "H1", "::1", "host.example.org"]), rnd.choice(["80", "81", "http"])]
@@ -49,6 +55,10 @@ def gen_tree(rnd, depth=0):
                 continue
             seen.add((nm, ty))
             t.append([nmc, ty, gen_value(rnd, ty, depth)])
+    if rnd.random() < 0.04:
+        # a wide object: many (unregistered) members
+        for k in rnd.sample(range(70), rnd.choice([9, 17, 33, 65])):
+            t.append(["w%02d" % k, STR, rnd.choice(["1", "2", "x"])])
     if depth == 0:
         # typed settings (always parsable values: an unparsable one is C16's "previous value stays")
         if rnd.random() < 0.6:
